@@ -88,22 +88,69 @@ Proof.
     apply classifier_sound_complete. tauto.
 Qed.
 
-(* ---- the verdict on the generated table (finite: bound = the table) ---- *)
-Definition all_racy_listed : bool :=
-  forallb (fun p => listedb findings (group_of (fst p) (snd p))) (racy table).
+(* ---- generic lemmas (stated for an arbitrary table so that no proof step ever unfolds the generated one) ---- *)
+Definition all_listed (fs : list finding) (t : list access) : bool :=
+  forallb (fun p => listedb fs (group_of (fst p) (snd p))) (racy t).
 
-Lemma all_racy_listed_true : all_racy_listed = true.
+Lemma all_listed_spec : forall fs t, all_listed fs t = true ->
+  forall a b, In a t -> In b t -> race a b -> exists n, In (group_of a b, n) fs.
+Proof.
+  intros fs t H a b Ha Hb Hr.
+  assert (In (a, b) (racy t)) as Hin by (apply classifier_sound_complete; tauto).
+  unfold all_listed in H. rewrite forallb_forall in H. specialize (H (a, b) Hin).
+  apply listedb_spec. exact H.
+Qed.
+
+Lemma race_free_iff_generic : forall t,
+  (forall a b, In a t -> In b t -> ~ race a b) <-> racy t = [].
+Proof.
+  intros t. split.
+  - intros H. destruct (racy t) as [|[a b] r] eqn:E; [reflexivity|].
+    assert (In (a, b) (racy t)) as Hin by (rewrite E; left; reflexivity).
+    apply (classifier_sound_complete t a b) in Hin. destruct Hin as [Ha [Hb Hr]]. exfalso. exact (H a b Ha Hb Hr).
+  - intros E a b Ha Hb Hr.
+    assert (In (a, b) (racy t)) as Hin by (apply classifier_sound_complete; tauto).
+    rewrite E in Hin. exact Hin.
+Qed.
+
+Definition nonemptyb {A} (l : list A) : bool := match l with [] => false | _ => true end.
+
+Lemma refuted_generic : forall t, nonemptyb (racy t) = true ->
+  ~ (forall a b, In a t -> In b t -> ~ race a b).
+Proof.
+  intros t N H. apply race_free_iff_generic in H. rewrite H in N. discriminate N.
+Qed.
+
+(* classes are a function of the cell name (used for symmetry of `race`) *)
+Definition class_code (c : oclass) : Z :=
+  match c with OFan => 1 | OController => 2 | OControlLoop => 3 | OCurve => 4 | OSensor => 5
+             | OPid => 6 | OConfig => 7 | OGlobal => 8 | OOther => 9 end%Z.
+
+Lemma class_code_inj : forall a b, class_code a = class_code b -> a = b.
+Proof. destruct a, b; simpl; intros H; try reflexivity; discriminate H. Qed.
+
+Definition classes_functional (t : list access) : bool :=
+  forallb (fun a => forallb (fun b => negb (String.eqb (a_loc a) (a_loc b))
+                                      || Z.eqb (class_code (a_class a)) (class_code (a_class b))) t) t.
+
+Lemma race_symmetric_generic : forall t, classes_functional t = true ->
+  forall a b, In a t -> In b t -> race a b -> race b a.
+Proof.
+  intros t H a b Ha Hb Hr. apply race_sym; [|assumption].
+  unfold classes_functional in H.
+  rewrite forallb_forall in H. specialize (H a Ha). rewrite forallb_forall in H. specialize (H b Hb).
+  destruct Hr as [Hl _]. apply orb_true_iff in H. destruct H as [H|H].
+  - rewrite negb_true_iff in H. apply String.eqb_neq in H. contradiction.
+  - apply Z.eqb_eq in H. apply class_code_inj. assumption.
+Qed.
+
+(* ---- the verdict on the generated table (finite: bound = the table) ---- *)
+Lemma all_racy_listed_true : all_listed findings table = true.
 Proof. vm_compute. reflexivity. Qed.
 
 Theorem race_free_modulo : forall a b,
   In a table -> In b table -> race a b -> exists n, In (group_of a b, n) findings.
-Proof.
-  intros a b Ha Hb Hr.
-  assert (In (a, b) (racy table)) as Hin by (apply classifier_sound_complete; tauto).
-  pose proof all_racy_listed_true as H. unfold all_racy_listed in H.
-  rewrite forallb_forall in H. specialize (H (a, b) Hin). simpl in H.
-  apply listedb_spec. exact H.
-Qed.
+Proof. exact (all_listed_spec findings table all_racy_listed_true). Qed.
 
 Corollary race_free_outside_findings : forall a b,
   In a table -> In b table -> (forall n, ~ In (group_of a b, n) findings) -> ~ race a b.
@@ -115,51 +162,19 @@ Qed.
 Definition race_free_full : Prop := forall a b, In a table -> In b table -> ~ race a b.
 
 Lemma race_free_full_iff : race_free_full <-> racy table = [].
-Proof.
-  unfold race_free_full. split.
-  - intros H. destruct (racy table) as [|[a b] r] eqn:E; [reflexivity|].
-    assert (In (a, b) (racy table)) as Hin by (rewrite E; left; reflexivity).
-    apply classifier_sound_complete in Hin. destruct Hin as [Ha [Hb Hr]]. exfalso. exact (H a b Ha Hb Hr).
-  - intros E a b Ha Hb Hr.
-    assert (In (a, b) (racy table)) as Hin by (apply classifier_sound_complete; tauto).
-    rewrite E in Hin. exact Hin.
-Qed.
+Proof. exact (race_free_iff_generic table). Qed.
 
-Definition racy_nonempty : bool := match racy table with [] => false | _ => true end.
-
-Lemma racy_nonempty_true : racy_nonempty = true.
+Lemma racy_nonempty_true : nonemptyb (racy table) = true.
 Proof. vm_compute. reflexivity. Qed.
 
 Theorem race_free_full_refuted : ~ race_free_full.
-Proof.
-  intros H. apply race_free_full_iff in H. pose proof racy_nonempty_true as N.
-  unfold racy_nonempty in N. rewrite H in N. discriminate N.
-Qed.
+Proof. exact (refuted_generic table racy_nonempty_true). Qed.
 
-(* classes are a function of the cell name in the generated table (used for symmetry of `race`) *)
-Definition class_code (c : oclass) : Z :=
-  match c with OFan => 1 | OController => 2 | OControlLoop => 3 | OCurve => 4 | OSensor => 5
-             | OPid => 6 | OConfig => 7 | OGlobal => 8 | OOther => 9 end%Z.
-
-Definition classes_functional : bool :=
-  forallb (fun a => forallb (fun b => negb (String.eqb (a_loc a) (a_loc b))
-                                      || Z.eqb (class_code (a_class a)) (class_code (a_class b))) table) table.
-
-Lemma classes_functional_true : classes_functional = true.
+Lemma classes_functional_true : classes_functional table = true.
 Proof. vm_compute. reflexivity. Qed.
 
-Lemma class_code_inj : forall a b, class_code a = class_code b -> a = b.
-Proof. destruct a, b; simpl; intros H; try reflexivity; discriminate H. Qed.
-
 Theorem race_symmetric_on_table : forall a b, In a table -> In b table -> race a b -> race b a.
-Proof.
-  intros a b Ha Hb Hr. apply race_sym; [|assumption].
-  pose proof classes_functional_true as H. unfold classes_functional in H.
-  rewrite forallb_forall in H. specialize (H a Ha). rewrite forallb_forall in H. specialize (H b Hb).
-  destruct Hr as [Hl _]. apply orb_true_iff in H. destruct H as [H|H].
-  - rewrite negb_true_iff in H. apply String.eqb_neq in H. contradiction.
-  - apply Z.eqb_eq in H. apply class_code_inj. assumption.
-Qed.
+Proof. exact (race_symmetric_generic table classes_functional_true). Qed.
 
 (* ---- non-vacuity: the classifier separates a guarded from an unguarded access on a two-entry table ---- *)
 Example lock_protects :
